@@ -9,7 +9,7 @@ props = [a for a in sys.argv[1:] if not a.startswith("--")] or sorted(os.listdir
 manifest = json.load(open(os.path.join(VERIF, "MANIFEST.json")))
 claimed = {c["property_id"] for c in manifest["checks"]}
 for prop in props:
-    for m in ("m1", "m2", "m3", "m4", "m5", "m6", "m7", "m8", "m9"):
+    for m in ("m1", "m2", "m3", "m4", "m5", "m6", "m7", "m8", "m9", "m10", "m11", "m12"):
         d = os.path.join(SRC, prop)
         if not os.path.exists(os.path.join(d, m + ".diff")):
             continue
